@@ -95,6 +95,8 @@ func (r *Recover) StartPost(w http.ResponseWriter, req *http.Request) error {
 			Success:      r.Localizef(req.Context(), authboss.TxtRecoverInitiateSuccessFlash),
 		}
 		return r.Core.Redirector.Redirect(w, req, ro)
+	} else if err != nil {
+		return err
 	}
 
 	ru := authboss.MustBeRecoverable(user)
